@@ -232,6 +232,19 @@ TESTS.update({
  'O-iii-f-leq-arguments-swapped': [
    ('        return self._leq_func(self._elements[a_index], self._elements[b_index])\n',
     '        return self._leq_func(self._elements[b_index], self._elements[a_index])\n', 1)],
+ 'O-ii-c-join-explicit-none-test': [
+   ('        if element_indexes is None or len(element_indexes) == 0:\n            element_indexes = list(range(len(self._elements)))\n',
+    '        if element_indexes is None or 0 == len(element_indexes):\n            element_indexes = list(range(len(self)))\n', 1)],
+ 'O-iii-h-join-uses-descendants-in-pruning': [
+   ('        for el_idx in copy(join_indexes):\n            join_indexes -= self.ancestors(el_idx)\n', '        for el_idx in copy(join_indexes):\n            join_indexes -= self.descendants(el_idx)\n', 1)],
+ 'O-iii-i-join-unions-instead-of-intersecting': [('            join_indexes &= self.ancestors(el_idx) | {el_idx}\n', '            join_indexes |= self.ancestors(el_idx) | {el_idx}\n', 1)],
+ 'O-iii-j-meet-skips-second-element': [
+   ('        for el_idx in element_indexes[1:]:\n            meet_indexes &=', '        for el_idx in element_indexes[2:]:\n            meet_indexes &=', 1)],
+ 'O-iii-k-meet-accepts-two-candidates': [
+   ('        meet_idx = list(meet_indexes)[0] if len(meet_indexes) == 1 else None\n', '        meet_idx = list(meet_indexes)[0] if len(meet_indexes) >= 1 else None\n', 1)],
+ 'O-iii-l-join-of-empty-selection-is-none': [
+   ('        if element_indexes is None or len(element_indexes) == 0:\n            element_indexes = list(range(len(self._elements)))\n',
+    '        if element_indexes is None:\n            element_indexes = list(range(len(self._elements)))\n        if len(element_indexes) == 0:\n            return None\n', 1)],
  'O-iii-g-leq-reflexive-shortcut (changes answers only for a non-reflexive leq_func)': [
    ('        return self._leq_func(self._elements[a_index], self._elements[b_index])\n',
     '        return a_index == b_index or self._leq_func(self._elements[a_index], self._elements[b_index])\n', 1)],
@@ -337,6 +350,17 @@ UNITS = [
  ('copy-without-import-refused', 'def f(self, a):\n    return copy(a)', dict(a='FSet Nat'), 'FSet Nat', None, 'call `copy('),
  ('copy-of-set', 'def f(self, a):\n    return copy(a)', dict(a='FSet Nat'), 'FSet Nat', ['return a'], None, dict(_prelude='from copy import copy\n')),
  ('set-display', 'def f(self, a, x):\n    return a | {x}', dict(a='FSet Nat', x='Nat'), 'FSet Nat', ['(Fca.Gen.setUnion a [x])']),
+ ('default-idiom', 'def f(self, xs=None):\n    if xs is None or len(xs) == 0:\n        xs = [0]\n    return xs', dict(xs='Option (List Nat)'), 'List Nat',
+  ['(match xs with', '| none => do', 'else pure xs)']),
+ ('default-idiom-wrong-type-refused', 'def f(self, xs=None):\n    if xs is None or len(xs) == 0:\n        xs = 0\n    return 1', dict(xs='Option (List Nat)'), 'Nat', None, 'is not of the type'),
+ ('value-or-none', 'def f(self, xs):\n    return xs[0] if len(xs) == 1 else None', dict(xs='List Nat'), 'Option Nat', ['pure (some t1)', 'else pure none)']),
+ ('len-of-set-in-nodup-unit', 'def f(self, a):\n    return len(a)', dict(a='FSet Nat'), 'Nat', ['return (Fca.Gen.len a)'], None, dict(unit='Poset', _self='POSet')),
+ ('set-comprehension-of-images-in-nodup-unit-refused', 'def f(self, n):\n    return frozenset({i + 1 for i in range(n)})', dict(n='Nat'), 'FSet Nat', None, 'duplicate-free (A13)', dict(unit='Poset', _self='POSet')),
+ ('list-to-set-in-nodup-unit-refused', 'def f(self, xs):\n    return frozenset(xs)', dict(xs='List Nat'), 'FSet Nat', None, 'duplicate-free (A13)', dict(unit='Poset', _self='POSet')),
+ ('for-over-set-uses-order-parameter', 'def f(self, a):\n    out = []\n    for x in a:\n        out.append(x)\n    return out', dict(a='FSet Nat'), 'List Nat',
+  ['for x in (ord a) do'], None, dict(unit='Poset', _self='POSet', locals=dict(out='List Nat'))),
+ ('for-over-set-without-order-parameter-refused', 'def f(self, a):\n    out = []\n    for x in a:\n        out.append(x)\n    return out', dict(a='FSet Nat'), 'List Nat',
+  None, 'iteration over', dict(locals=dict(out='List Nat'))),
  ('method-of-non-record-refused', 'def f(self, xs):\n    return xs.count(1)', dict(xs='List Nat'), 'Nat', None, 'the receiver is not a record'),
 ]
 
